@@ -269,8 +269,8 @@ pub fn entry_space(thin: bool) -> Vec<REntry> {
     let names: Vec<Vec<u8>> = vec![vec![], vec![1, 0, 1, 8, 0, 0xff]];
     let statuses: Vec<Option<RStatus>> = vec![None, Some(RStatus::S8(0x82)), Some(RStatus::S16(0x0102)), Some(RStatus::S32(0x00f203)), Some(RStatus::S32(0x8000_0001)), Some(RStatus::S64(0x01_0000_0000)), Some(RStatus::S64(u64::MAX))];
     let times: Vec<Option<RTime>> = vec![None, Some(RTime::SecIndex(0x7f)), Some(RTime::SecIndex(0xfffefdfc))];
-    let units: Vec<Option<u8>> = vec![None, Some(30)];
-    let scalers: Vec<Option<i8>> = vec![None, Some(-1), Some(127)];
+    let units: Vec<Option<u8>> = vec![None, Some(30), Some(255)];
+    let scalers: Vec<Option<i8>> = vec![None, Some(-1), Some(127), Some(-128)];
     let mut values: Vec<RValue> = vec![RValue::Bool(true), RValue::Bool(false)];
     for l in [0usize, 1, 14, 15, 16] {
         values.push(RValue::Bytes((0..l).map(|i| (i * 7 + 1) as u8).collect()));
@@ -343,6 +343,11 @@ pub fn message_space() -> Vec<RFile> {
             }]);
         }
     }
+    // very long lists of minimal entries: the element count crosses 2^12 and 2^16
+    let min_entry = REntry { obj_name: vec![], status: None, val_time: None, unit: None, scaler: None, value: RValue::Bytes(vec![]), sig: None };
+    for n in [4095usize, 4096, 65534, 65535, 65536, 65537] {
+        files.push(vec![getlist(vec![min_entry.clone(); n]), close_msg()]);
+    }
     // transaction ids across the 15/16-byte TLF boundary and a long one
     for l in [0usize, 1, 13, 14, 15, 16, 17, 255, 256, 300] {
         let mut m = close_msg();
@@ -388,7 +393,7 @@ fn gen_family(files: &[RFile], budget: usize, acc_proto: &Acc, name: &'static st
             let file = &files[i as usize];
             let (_, sites) = encode_file(file, &[]);
             // long lists have thousands of sites: deviations only on the first 120 sites there
-            let lim = if sites.len() > 400 { 120 } else { sites.len() };
+            let lim = if sites.len() > 5000 { 8 } else if sites.len() > 400 { 120 } else { sites.len() };
             let bud = if sites.len() > 400 { budget.min(1) } else { budget };
             for_each_dev(&sites[..lim], bud, &mut |dev| {
                 let (x, _) = encode_file(file, dev);
@@ -1182,7 +1187,7 @@ pub fn run(prop: &'static str, tier: Tier) -> ! {
             extra.put("abstract_entry_files", files.len());
             // quick: the full entry product with <= 1 non-default encoding choice, every 5th entry with <= 2
             fam("entry product x encodings (<= 1 choice)", gen_family(&files, 1, &proto, "generated: list-entry product x valid encodings"), &mut all);
-            let sub: Vec<RFile> = files.iter().step_by(tier.pick(5, 1)).cloned().collect();
+            let sub: Vec<RFile> = files.iter().step_by(tier.pick(8, 1)).cloned().collect();
             fam("entry product x encodings (<= 2 choices)", gen_family(&sub, 2, &proto, "generated: list-entry product x valid encodings (two choices)"), &mut all);
             let msgs = message_space();
             extra.put("abstract_message_files", msgs.len());
